@@ -208,8 +208,7 @@ func tryReplay(f *failure, verifDir string) bool {
 	return false
 }
 
-func writeEvidence(res *result, path string) {
-	level := "proof"
+func writeEvidence(res *result, path string, level, explanation, extraFile string) {
 	var fnames []string
 	for _, f := range res.Functions {
 		fnames = append(fnames, f.Key)
@@ -263,7 +262,17 @@ func writeEvidence(res *result, path string) {
 		"wall_s":      res.WallS,
 		"violations":  len(res.Failed),
 	}
-	// merge an optional bounded leg written by another tool
+	if level == "other" {
+		cov["explanation"] = explanation
+	}
+	if extraFile != "" {
+		if b, err := os.ReadFile(extraFile); err == nil {
+			var ex interface{}
+			if json.Unmarshal(b, &ex) == nil {
+				cov["bounded_or_computed_legs"] = ex
+			}
+		}
+	}
 	os.MkdirAll(filepath.Dir(path), 0o755)
 	b, _ := json.MarshalIndent(ev, "", " ")
 	os.WriteFile(path, b, 0o644)
